@@ -234,6 +234,19 @@ func TestVerifC02Seq(t *testing.T) {
 		for k := 0; k < ni; k++ {
 			is = append(is, vPick(r, []string{"ic", "iu", "fc", "fu"}))
 		}
+		// duplicate registration: instruments created with the NAME of an earlier one (same meter) — with another kind
+		// or number type (own stream, equal names) or identically (the cached instrument: one shared stream)
+		if r.Intn(4) == 0 {
+			gen = "dup"
+			for k := 1; k < ni; k++ {
+				if r.Intn(2) == 0 {
+					root := r.Intn(k)
+					if !strings.Contains(is[root], "#") {
+						is[k] += "#" + strconv.Itoa(root)
+					}
+				}
+			}
+		}
 		flags := ""
 		withCb := r.Intn(4) == 0
 		withTo := !withCb && hasP && r.Intn(50*max(1, n/5000)) == 0 // ~50 short-timeout histories per run (each costs ~0.1-0.3 s)
